@@ -30,8 +30,13 @@ func VerifH_C20_Delivered() {
 	body1 := make([]byte, n1)
 	copy(body1, p1)
 	p2 := vfBytes("payload2", 3)
+	body2 := p2
+	if vfBool("secondIsMultiChunk") {
+		body2 = make([]byte, int(snd.inst.maxBodySize)+2)
+		copy(body2, p2)
+	}
 	e1 := snd.sc.SendMsgWithContext(context.Background(), snd.inst, 77, vfC07Resp(body1))
-	e2 := snd.sc.SendMsgWithContext(context.Background(), snd.inst, 78, vfC07Resp(p2))
+	e2 := snd.sc.SendMsgWithContext(context.Background(), snd.inst, 78, vfC07Resp(body2))
 	vfAssert(e1 == nil && e2 == nil, "sending fails")
 	rcv := vfNewEnd("rcv", client, pi, mode, cn, sn, vfC09Ack, vfTCPWritten(snd.tcp), 5, 9, 0)
 	m1 := rcv.sc.Receive(context.Background())
